@@ -25,3 +25,27 @@ var anchorPkgs = map[string][]string{
 	"C19": {"p2p/http/auth", "p2p/http/auth/internal/handshake"},
 	"C20": {"p2p/net/swarm"},
 }
+
+// anchorFiles: the files (or directories) each property names as its anchors.
+var anchorFiles = map[string][]string{
+	"C01": {"core/sec/security.go", "p2p/net/swarm/swarm_dial.go", "p2p/net/upgrader/upgrader.go", "p2p/security/noise/handshake.go", "p2p/security/noise/session.go", "p2p/security/noise/session_transport.go", "p2p/security/noise/transport.go", "p2p/security/tls/crypto.go", "p2p/security/tls/transport.go", "p2p/transport/quic/listener.go", "p2p/transport/quic/transport.go"},
+	"C02": {"p2p/host/basic/basic_host.go", "p2p/muxer/yamux/conn.go", "p2p/muxer/yamux/stream.go", "p2p/net/pnet/psk_conn.go", "p2p/net/swarm/swarm_stream.go", "p2p/security/noise/crypto.go", "p2p/security/noise/rw.go", "p2p/security/tls/conn.go", "p2p/transport/tcpreuse/internal/sampledconn/sampledconn.go"},
+	"C03": {"core/network/rcmgr.go", "p2p/host/resource-manager/allowlist.go", "p2p/host/resource-manager/conn_limiter.go", "p2p/host/resource-manager/extapi.go", "p2p/host/resource-manager/limit.go", "p2p/host/resource-manager/rcmgr.go", "p2p/host/resource-manager/scope.go"},
+	"C04": {"p2p/host/basic/basic_host.go", "p2p/net/swarm/swarm.go", "p2p/net/swarm/swarm_conn.go", "p2p/net/swarm/swarm_listen.go", "p2p/net/swarm/swarm_stream.go", "p2p/net/upgrader/conn.go", "p2p/net/upgrader/listener.go", "p2p/net/upgrader/threshold.go", "p2p/net/upgrader/upgrader.go", "p2p/transport/quic/listener.go", "p2p/transport/quic/transport.go", "p2p/transport/tcp/tcp.go", "p2p/transport/tcpreuse/listener.go", "p2p/transport/websocket/websocket.go"},
+	"C05": {"p2p/net/swarm/black_hole_detector.go", "p2p/net/swarm/dial_error.go", "p2p/net/swarm/dial_ranker.go", "p2p/net/swarm/dial_sync.go", "p2p/net/swarm/dial_worker.go", "p2p/net/swarm/limiter.go", "p2p/net/swarm/swarm_dial.go"},
+	"C06": {"p2p/net/swarm/connection_events_emitter.go", "p2p/net/swarm/swarm.go", "p2p/net/swarm/swarm_conn.go"},
+	"C07": {"core/protocol/switch.go", "p2p/host/basic/basic_host.go", "p2p/host/blank/blank.go", "p2p/net/swarm/swarm_conn.go", "p2p/net/swarm/swarm_stream.go"},
+	"C08": {"core/crypto/ecdsa.go", "core/crypto/ed25519.go", "core/crypto/key.go", "core/crypto/rsa_go.go", "core/crypto/secp256k1.go", "core/peer/addrinfo.go", "core/peer/peer.go", "core/peer/peer_serde.go", "core/peer/record.go", "core/record/envelope.go", "core/record/record.go", "p2p/protocol/circuitv2/proto/voucher.go"},
+	"C09": {"core/peerstore/peerstore.go", "p2p/host/peerstore/pstoreds/addr_book.go", "p2p/host/peerstore/pstoreds/addr_book_gc.go", "p2p/host/peerstore/pstoreds/peerstore.go", "p2p/host/peerstore/pstoremem/addr_book.go", "p2p/host/peerstore/pstoremem/peerstore.go"},
+	"C10": {"core/connmgr/gater.go", "p2p/net/conngater/conngater.go", "p2p/net/swarm/swarm.go", "p2p/net/swarm/swarm_dial.go", "p2p/net/upgrader/listener.go", "p2p/net/upgrader/upgrader.go", "p2p/transport/quic/listener.go", "p2p/transport/webrtc/listener.go", "p2p/transport/webtransport/listener.go"},
+	"C11": {"p2p/protocol/circuitv2/client/dial.go", "p2p/protocol/circuitv2/client/handlers.go", "p2p/protocol/circuitv2/client/reservation.go", "p2p/protocol/circuitv2/proto/voucher.go", "p2p/protocol/circuitv2/relay/acl.go", "p2p/protocol/circuitv2/relay/constraints.go", "p2p/protocol/circuitv2/relay/relay.go", "p2p/protocol/circuitv2/relay/resources.go"},
+	"C12": {"core/network/context.go", "p2p/host/basic/basic_host.go", "p2p/net/swarm/dial_worker.go", "p2p/net/swarm/swarm.go", "p2p/net/swarm/swarm_conn.go", "p2p/net/swarm/swarm_dial.go", "p2p/protocol/holepunch/holepuncher.go", "p2p/protocol/holepunch/svc.go", "p2p/protocol/holepunch/util.go"},
+	"C13": {"p2p/host/peerstore/pstoremem/addr_book.go", "p2p/protocol/identify/id.go", "p2p/protocol/identify/opts.go"},
+	"C14": {"core/connmgr/manager.go", "p2p/net/connmgr/connmgr.go", "p2p/net/connmgr/decay.go", "p2p/net/connmgr/options.go"},
+	"C15": {"core/event/bus.go", "p2p/host/eventbus/basic.go", "p2p/host/eventbus/opts.go"},
+	"C16": {"p2p/protocol/autonatv2/autonat.go", "p2p/protocol/autonatv2/msg_reader.go", "p2p/protocol/autonatv2/options.go", "p2p/protocol/autonatv2/server.go"},
+	"C17": {"p2p/host/basic/addrs_manager.go", "p2p/host/observedaddrs/manager.go"},
+	"C18": {"p2p/transport/webtransport/cert_manager.go", "p2p/transport/webtransport/crypto.go", "p2p/transport/webtransport/multiaddr.go", "p2p/transport/webtransport/transport.go"},
+	"C19": {"p2p/http/auth/client.go", "p2p/http/auth/internal/handshake/client.go", "p2p/http/auth/internal/handshake/handshake.go", "p2p/http/auth/internal/handshake/server.go", "p2p/http/auth/server.go"},
+	"C20": {"p2p/net/swarm/black_hole_detector.go", "p2p/net/swarm/swarm_dial.go"},
+}
